@@ -1759,9 +1759,9 @@ fn extend_to_bits(v: &mut Vec<usize>, ty: &Type, bits: usize) {
         v.resize(bits, 0);
         v.copy_within(0..old_size, bits - old_size);
         if let Type::Signed(_) = ty {
-            v[0..old_size].fill(msb);
+            v[0..bits - old_size].fill(msb);
         } else {
-            v[0..old_size].fill(0);
+            v[0..bits - old_size].fill(0);
         }
     }
 }
